@@ -885,11 +885,103 @@ def gen_effects(repo):
     return out
 
 
+# ---------------------------------------------------------------------------
+# the open-time size gate (tie T for C18): Array._check_arrayinfoconsistency
+# ---------------------------------------------------------------------------
+# Symbolic reading of a straight-line function over three quantities: the shape of the
+# description, the item size of its dtype and the size of the data file.  Fail-closed.
+
+_ZOPS = {ast.Mult: '*', ast.Add: '+', ast.Sub: '-'}
+_ZFUN = {ast.FloorDiv: 'Z.div', ast.Mod: 'Z.modulo'}
+_ZCMP = {ast.Eq: 'Z.eqb {a} {b}', ast.NotEq: 'negb (Z.eqb {a} {b})', ast.Lt: 'Z.ltb {a} {b}',
+         ast.LtE: 'Z.leb {a} {b}', ast.Gt: 'Z.ltb {b} {a}', ast.GtE: 'Z.leb {b} {a}'}
+
+
+def _is_shape_of_info(e, env):
+    return (isinstance(e, ast.Subscript) and isinstance(e.value, ast.Name) and env.get(e.value.id) == '#info'
+            and isinstance(e.slice, ast.Constant) and e.slice.value == 'shape')
+
+
+def _gate_expr(e, env):
+    if isinstance(e, ast.Name):
+        v = env.get(e.id)
+        if v is None or v.startswith('#'):
+            fail(e, f'name {e.id} is not an integer quantity of the size gate')
+        return v
+    if isinstance(e, ast.Constant) and isinstance(e.value, int) and not isinstance(e.value, bool):
+        return f'({e.value})' if e.value < 0 else str(e.value)
+    if isinstance(e, ast.BinOp) and type(e.op) in _ZOPS:
+        return f'({_gate_expr(e.left, env)} {_ZOPS[type(e.op)]} {_gate_expr(e.right, env)})'
+    if isinstance(e, ast.BinOp) and type(e.op) in _ZFUN:
+        return f'({_ZFUN[type(e.op)]} {_gate_expr(e.left, env)} {_gate_expr(e.right, env)})'
+    if isinstance(e, ast.Call) and _call_name(e) in ('product', 'prod') and len(e.args) == 1 and not e.keywords \
+            and _is_shape_of_info(e.args[0], env):
+        return '(prodZ shape)'
+    if isinstance(e, ast.Call) and _call_name(e) == 'int' and len(e.args) == 1 and not e.keywords:
+        return _gate_expr(e.args[0], env)
+    if isinstance(e, ast.Attribute) and e.attr == 'itemsize' and isinstance(e.value, ast.Name) \
+            and env.get(e.value.id) == '#dtype':
+        return 'isz'
+    if isinstance(e, ast.Attribute) and e.attr == 'st_size' and isinstance(e.value, ast.Call) \
+            and _call_name(e.value) == 'stat' and not e.value.args \
+            and isinstance(e.value.func.value, ast.Attribute) and e.value.func.value.attr == '_datapath':
+        return 'fsz'
+    fail(e, 'expression outside the size-gate subset')
+
+
+def _gate_cond(t, env):
+    if isinstance(t, ast.Compare) and len(t.ops) == 1 and type(t.ops[0]) in _ZCMP:
+        return '(' + _ZCMP[type(t.ops[0])].format(a=_gate_expr(t.left, env), b=_gate_expr(t.comparators[0], env)) + ')'
+    if isinstance(t, ast.BoolOp):
+        op = ' && ' if isinstance(t.op, ast.And) else ' || '
+        return '(' + op.join(_gate_cond(v, env) for v in t.values) + ')'
+    if isinstance(t, ast.UnaryOp) and isinstance(t.op, ast.Not):
+        return f'(negb {_gate_cond(t.operand, env)})'
+    fail(t, 'condition outside the size-gate subset')
+
+
+def gen_gate(repo):
+    tree = ast.parse((repo / 'darr/array.py').read_text(encoding='utf-8'))
+    f = find_function(tree, '_check_arrayinfoconsistency', 'Array')
+    env, rejects = {}, []
+    for s in f.body:
+        if isinstance(s, ast.Expr) and isinstance(s.value, ast.Constant) and isinstance(s.value.value, str):
+            continue
+        if isinstance(s, ast.Assign) and len(s.targets) == 1 and isinstance(s.targets[0], ast.Name):
+            name, v = s.targets[0].id, s.value
+            if isinstance(v, ast.Attribute) and v.attr == '_arrayinfo' and isinstance(v.value, ast.Name) \
+                    and v.value.id == 'self':
+                env[name] = '#info'
+            elif isinstance(v, ast.Call) and _call_name(v) == 'dtype' and len(v.args) == 1 \
+                    and isinstance(v.args[0], ast.Call) and _call_name(v.args[0]) == 'arrayinfotodtype' \
+                    and len(v.args[0].args) == 1 and isinstance(v.args[0].args[0], ast.Name) \
+                    and env.get(v.args[0].args[0].id) == '#info':
+                env[name] = '#dtype'
+            else:
+                env[name] = _gate_expr(v, env)
+            continue
+        if isinstance(s, ast.If) and not s.orelse and len(s.body) == 1 and isinstance(s.body[0], ast.Raise):
+            exc = s.body[0].exc
+            if not (isinstance(exc, ast.Call) and _call_name(exc) == 'ValueError'):
+                fail(s, 'the size gate raises something else than ValueError')
+            rejects.append(_gate_cond(s.test, env))
+            continue
+        fail(s, f'statement {type(s).__name__} outside the size-gate subset')
+    if not rejects:
+        raise Unsupported('_check_arrayinfoconsistency refuses nothing')
+    body = ' && '.join(f'negb {r}' for r in rejects)
+    return ("(* GENERATED by /verif/gen/py2v.py from darr/array.py (Array._check_arrayinfoconsistency)\n"
+            "   -- do not edit.  size_gate shape isz fsz = true: the open-time check lets a description with\n"
+            "   this shape, whose dtype has item size isz, pass for a data file of fsz bytes. *)\n"
+            "From Coq Require Import ZArith List Bool.\nFrom Darr Require Import Base.\nOpen Scope Z_scope.\n\n"
+            f"Definition size_gate (shape : list Z) (isz fsz : Z) : bool :=\n  {body}.\n")
+
+
 def main():
     repo = Path(sys.argv[1] if len(sys.argv) > 1 else '/repo')
     outdir = Path(sys.argv[2] if len(sys.argv) > 2 else '/verif/coq')
     status = 0
-    for fname, gen in (('Gen_frames.v', gen_frames), ('Gen_tables.v', gen_tables), ('Gen_effects.v', gen_effects)):
+    for fname, gen in (('Gen_frames.v', gen_frames), ('Gen_tables.v', gen_tables), ('Gen_effects.v', gen_effects), ('Gen_gate.v', gen_gate)):
         try:
             text = gen(repo)
         except (Unsupported, SyntaxError, OSError, KeyError, ValueError) as e:
